@@ -296,6 +296,42 @@ func Run(c *engine.Ctx) {
 	near := []string{"n", "N", "n "}
 	shapes("near-ids-n3-e2", near, near, types1, append(append([]string{}, near...), " n"), 2)
 
+	// identifiers that are decimal-suffix extensions of one another with edge type numbers whose decimal spellings
+	// extend one another ("n1"+"15" = "n11"+"5"): any key built by gluing identifier and type number merges them
+	{
+		idsC := []string{"n", "n1", "n11", "x"}
+		typesC := []sbom.Edge_Type{1, 2, 5, 11, 12, 15}
+		c.Group("collisions")
+		var objs []gen.EdgeSpec
+		for _, f := range []string{"n", "n1", "n11"} {
+			for _, ty := range typesC {
+				for _, to := range [][]string{{"x"}, {"n11"}, {"n1", "x"}} {
+					objs = append(objs, gen.EdgeSpec{From: f, Type: ty, To: to})
+				}
+			}
+		}
+		c.Bound("collisions", fmt.Sprintf("nodes %v, every ordered list of <=2 of %d edge objects (sources n, n1, n11 x type numbers %v x 3 target lists), roots {none, n}, every start", idsC, len(objs), typesC))
+		gen.EdgeLists(objs, 2, func(el []gen.EdgeSpec) {
+			for _, roots := range [][]string{nil, {"n"}} {
+				for _, st := range idsC[:3] {
+					spec := gen.ListSpec{Nodes: idsC, Edges: el, Roots: roots}
+					st := st
+					c.Case(func() any { return caseDesc{List: spec, Start: st} }, func(t *engine.T) *engine.Violation {
+						nl := spec.Build()
+						obs, v := runAll(t, nl, st, 4)
+						if v != nil {
+							return v
+						}
+						t.Observe(obs)
+						t.State(gen.CanonKey(nl) + "@" + st)
+						t.Outcome("collisions " + outcomeClass(obs))
+						return nil
+					})
+				}
+			}
+		})
+	}
+
 	// every edge type (and two undeclared numbers): chains and fans that are only connected through that type
 	c.Group("edge-types")
 	var ets []int
